@@ -310,6 +310,26 @@ BASE_TRUSTED = [
 ]
 
 
+def needed_gen_groups(modules):
+    """names of the tier-A groups (`IbicusModel.Gen.<Name>`) imported, directly or transitively, by the given lake modules"""
+    import re
+
+    seen, todo, groups = set(), list(modules), set()
+    while todo:
+        m = todo.pop()
+        if m in seen or not m.startswith("IbicusModel"):
+            continue
+        seen.add(m)
+        if m.startswith("IbicusModel.Gen."):
+            groups.add(m.split(".")[2])
+            continue
+        path = os.path.join(LEAN, *m.split(".")) + ".lean"
+        if not os.path.exists(path):
+            continue
+        todo.extend(re.findall(r"^import (IbicusModel\.\S+)", open(path).read(), re.M))
+    return groups
+
+
 def lean_phase(res, prop, gen_groups, targets, extra_modules=()):
     """regenerate Gen/, build the property's modules, audit axioms, scan sources.
     Fills res.obligations/discharged/theorems/tie_broken. returns True iff every obligation checks."""
@@ -319,6 +339,10 @@ def lean_phase(res, prop, gen_groups, targets, extra_modules=()):
     # regeneration and build under ONE exclusive lock: a concurrent run must not rewrite Gen/ between the two
     with open(LOCK, "w") as lk:
         fcntl.flock(lk, fcntl.LOCK_EX)
+        # every tier-A group the property's modules import, directly or transitively, is regenerated from the current
+        # tree — not only the property's own groups: a theorem that rests on another property's `Gen = Model` equality
+        # is re-checked against what the code says now as well (and a fresh checkout without Gen/ files builds)
+        gen_groups = sorted(set(gen_groups or ()) | needed_gen_groups(list(targets) + [f"IbicusModel.Audit.{prop}"]))
         if gen_groups:
             errs = gen_mod.regenerate(gen_groups)
             for g, e in errs.items():
